@@ -699,7 +699,7 @@ class PEP8Normalizer(ErrorFinder):
                 self.add_issue(leaf, 703, 'Statement ends with a semicolon')
             else:
                 self.add_issue(leaf, 702, 'Multiple statements on one line (semicolon)')
-        elif leaf.value in ('==', '!='):
+        elif typ == 'operator' and leaf.value in ('==', '!='):
             comparison = leaf.parent
             index = comparison.children.index(leaf)
             left = comparison.children[index - 1]
